@@ -23,7 +23,9 @@ import (
 //	outlier:    200 calm values with a single special at each position 0..130;
 //	tail:       special values in the last 8 positions of buffers of every length around
 //	            64, 128, 256, 512, 1024, 4096 (all residues mod 8);
-//	adjacency:  for every ordered pair (A, B) of instantiations, A then B.
+//	adjacency:  for every ordered pair (A, B) of instantiations, A then B;
+//	provenance: the source buffer was filled only through windows of it, came from a pool that had
+//	            recycled it, or was the destination of another conversion before.
 //
 // Every output is judged by the property's own pointwise oracle, and (where the property
 // implies it) must equal the result of converting that value alone in a 1x1 buffer.
@@ -221,6 +223,53 @@ func (r *ctxRunner) runInst(s, d int, only *ctxCase) {
 							fmt.Sprintf("[buffer of %d samples, special values in its last 8 positions; looking at position %d]", L, i))
 					}
 				}
+			}
+		}
+	}
+	if (only == nil || only.Pass == "nan-neighbour") && dyn.Types[s].Kind == dyn.Float {
+		// a NaN somewhere in the buffer (its own result is unspecified and not looked at) must not change
+		// what the other samples become
+		nan := math.Float64bits(math.NaN())
+		var finite []uint64
+		for _, v := range sp {
+			if f := math.Float64frombits(v); !math.IsInf(f, 0) {
+				finite = append(finite, v)
+			}
+		}
+		for where := 0; where < 6; where++ {
+			if only != nil && only.Spec != where {
+				continue
+			}
+			// (where >= 3: finite values only, so that nothing after the NaN "repairs" a running maximum)
+			in := append(append([]uint64{}, sp...), sp...)
+			if where >= 3 {
+				in = append(append([]uint64{}, finite...), finite...)
+			}
+			at := []int{0, len(in) / 2, len(in) - 1}[where%3]
+			in[at] = nan
+			out := make([]uint64, len(in))
+			dyn.ConvBlockCh(s, d, len(in), 1)(in, out)
+			for i := range in {
+				if i != at {
+					r.check(mk("nan-neighbour", 1, where, i), s, d, in[i], out[i], base, fmt.Sprintf("[a NaN at position %d of %d samples; looking at position %d]", at, len(in), i))
+				}
+			}
+		}
+	}
+	if only == nil || only.Pass == "provenance" {
+		// the source buffer came about in an unusual way (dyn.ConvVia): filled only through windows of
+		// it, recycled by a pool, or first the destination of another conversion.  State that a buffer
+		// header carries about its own contents (a "silent" or "already in range" flag) goes stale there.
+		in := append(append([]uint64{}, sp...), sp...)
+		out := make([]uint64, len(in))
+		for route := 1; route <= 3; route++ {
+			if only != nil && only.Spec != route {
+				continue
+			}
+			dyn.ConvVia(s, d, route, in, out)
+			for i := range in {
+				r.check(mk("provenance", 1, route, i), s, d, in[i], out[i], base,
+					fmt.Sprintf("[source buffer %s; position %d]", [...]string{"", "filled only through Slice windows of it", "taken from a pool that recycled it, filled through windows", "first the destination of another conversion, then overwritten through a window"}[route], i))
 			}
 		}
 	}
